@@ -4,7 +4,7 @@ import ast
 from ..cfg import NORMAL_KINDS
 from ..exc import CANCELLED
 from ..queries import between, count_paths, reach
-from .lib import SLOT, Ctx, dominated_by_completion
+from .lib import SLOT, Ctx, dominated_by_completion, surplus_forwarded_only
 from . import shared as S
 from . import spawner as SP
 from .shared import expr_role
@@ -118,26 +118,7 @@ def r_lazy_iter(ctx: Ctx, rule: str) -> None:
     done = set()
 
     def forwards_only(t, benv, names) -> bool:
-        tsc = ctx.an.scope(t)
-        tpar = {}
-        for node in tsc._own_nodes():
-            for ch in ast.iter_child_nodes(node):
-                tpar[id(ch)] = node
-        for node in tsc._own_nodes():
-            if isinstance(node, ast.Name) and node.id in names and isinstance(node.ctx, ast.Load):
-                par = tpar.get(id(node))
-                c2 = tpar.get(id(par)) if isinstance(par, (ast.Starred, ast.keyword)) else None
-                if not (isinstance(c2, ast.Call) and (isinstance(par, ast.Starred) or par.arg is None) and isinstance(c2.func, ast.Name) and c2.func.id in benv
-                        and not tsc.defs.get(c2.func.id)):
-                    return False
-                ref = benv[c2.func.id][1]
-                pc = sc_of(benv[c2.func.id][0]).callee(ast.copy_location(ast.Call(func=ref, args=[], keywords=[]), ref))
-                if not (pc.kind == "pkg" and pc.targets and all(x.name in ("_map", "_arg_consumer") for x in pc.targets)):
-                    return False
-        return not any(n in tsc.defs for n in names)
-
-    def sc_of(fn):
-        return ctx.an.scope(fn)
+        return surplus_forwarded_only(ctx, t, benv, names, ("_map", "_arg_consumer"))
 
     def check(f, iters) -> None:
         key = (f.qual, tuple(sorted(iters)))
